@@ -377,6 +377,8 @@ impl GrammarBuilder {
                 }
 
                 if let Some(ConstVal::String(kind)) = new_production.meta.remove("kind") {
+                    // Production kind is used as an enum variant name.
+                    self.check_identifier(&kind)?;
                     new_production.kind = Some(kind.into());
                 }
 
